@@ -18,7 +18,9 @@ for mf in sorted(glob.glob(os.path.join(VERIF, "seeded", "*", "meta.json"))):
             first = f[0].split(": ")[0].lstrip("# ")
             break
     rc = m.get("recheck") or {}
-    if m.get("expected_uncaught"):
+    if m.get("superseded"):
+        final = "superseded by a repair (see meta.json)"
+    elif m.get("expected_uncaught"):
         final = "not claimed (see note)"
     elif rc:
         final = "caught" if rc.get("exit") == 1 else "**MISSED**"
@@ -60,7 +62,8 @@ out.append("%d changes; %d were caught by the check of their own property when f
                len(rows), n_first, sum(1 for r in rows if r[4] == "caught"),
                sum(1 for r in rows if r[4].startswith("caught by")),
                sum(1 for r in rows if "MISSED" in r[4]),
-               sum(1 for r in rows if r[4].startswith("not claimed"))))
+               sum(1 for r in rows if r[4].startswith("not claimed")
+                   or r[4].startswith("superseded"))))
 out.append("")
 p = os.path.join(VERIF, "DESIGN.md")
 s = open(p).read()
